@@ -388,13 +388,14 @@ def judge (mode : Nat) (kv : KV) : Verdict :=
             | none => acc
             | some next =>
               let j06' := if mode == 6 then judge06Step j06 prev next ln txt icase else j06
-              let (e, lp) := if mode == 14 then judge14Step prev next ln icase lastPat else ([], lastPat)
+              let (e, lp) := if mode == 14 then judge14Step prev next ln icase lastPat
+                             else if mode == 16 then (judge16Step prev next ln txt, lastPat) else ([], lastPat)
               let jb' := if mode == 2 || mode == 3 || mode == 20 then judgeBufStep mode jb prev next ln txt else jb
               let j04' := if mode == 4 then judge04Step j04 prev next ln else j04
               (next, j06', e14 ++ e, jb', lp, j04'))
         (st0, init06, [], initB, [], ({} : J04))
       let (e15, visits) := if mode == 15 && base.diffs.isEmpty then judge15 items rest mrun.eds st0 else ([], 0)
-      let sf := if mode == 6 then j06.errs else if mode == 14 then e14 else if mode == 4 then j04.errs else if mode == 15 then e15 else jb.errs
+      let sf := if mode == 6 then j06.errs else if mode == 14 || mode == 16 then e14 else if mode == 4 then j04.errs else if mode == 15 then e15 else jb.errs
       { base with specfails := (sf.take 3).map (fun s => (s.take 500).toString),
                   tags := base.tags ++ (if visits ≥ 2 then ["multivisit"] else []) }
 
